@@ -814,6 +814,13 @@ def _audit_hook(event, args):
 def _make_sim_datetime(clock):
     class SimDatetime(R_datetime):
         @classmethod
+        def fromtimestamp(cls, t, tz=None):
+            # CPython builds subclass instances without the fold flag; take it from the real class so that
+            # the repeated hour after a DST switch is represented exactly as in an unpatched process
+            d = R_datetime.fromtimestamp(t, tz)
+            return cls(d.year, d.month, d.day, d.hour, d.minute, d.second, d.microsecond, d.tzinfo, fold=d.fold)
+
+        @classmethod
         def now(cls, tz=None):
             us = clock.read()
             base = cls.fromtimestamp(us // 1_000_000, tz)
